@@ -20,6 +20,8 @@ const pkgResv = "pkg/binder/binding/resourcereservation"
 const pkgGroupMutex = "pkg/binder/binding/resourcereservation/group_mutex"
 
 func runC17(c *Ctx) {
+	runC17ReservationDeletedAtOnce(c)
+	runC17OrphanConsumersDeleted(c)
 	runC17MultiFraction(c)
 	borrow(c, "O6", "C11", "O3", "SyncForNode(SelectedNode)", "the reservation pod created for a failed bind is re-evaluated only if the sync runs for the selected node")
 
@@ -752,4 +754,71 @@ func runC17MultiFraction(c *Ctx) {
 		c.Check(len(syncs) > 0 && !found, "O10", "MPT", funcKey(f)+": success is reported only by the sync over both lists", f.Pos(), "every error-free exit passes syncForPods",
 			"the per-group sync can report success without having looked at the group's pods ("+pathStr(path)+"): consumers that only carry the per-group label (multi-device sharers) are not repaired when the first list is empty")
 	}
+}
+
+// runC17ReservationDeletedAtOnce (O13): a reservation pod that is being deleted gracefully stays listed, with its group
+// label and its device annotation, until the grace period ends; ReserveGpuDevice for the same group in that window
+// finds it, hands its index to the new consumer and leaves a running pod on a group whose reservation disappears a
+// moment later. The reservation pod is therefore deleted with a zero grace period: the Delete in deleteReservationPod
+// carries client.GracePeriodSeconds(0).
+func runC17ReservationDeletedAtOnce(c *Ctx) {
+	f := c.Anchor("O13", pkgResv, "service", "deleteReservationPod")
+	if f == nil {
+		return
+	}
+	n := 0
+	for _, h := range c.P.deepFind(f, isInvokeNamed("Delete"), 1) {
+		n++
+		args := h.In.(ssa.CallInstruction).Common().Args
+		ok := false
+		for _, src := range valueSources(args[len(args)-1], 5) {
+			if !strings.HasSuffix(typeKey(src.Type()), "client.GracePeriodSeconds") {
+				continue
+			}
+			if k, isK := src.(*ssa.Const); isK && k.Value != nil && k.Value.ExactString() == "0" {
+				ok = true
+			}
+		}
+		c.Check(ok, "O13", "PROV", funcKey(f)+": the reservation pod is deleted without a grace period", instrPos(h.In), "client.GracePeriodSeconds(0) among the delete options",
+			"the reservation pod is deleted gracefully: during its termination grace period it is still found by the group's label, a new consumer of the group is given its device index and keeps running on a group whose reservation pod then disappears")
+	}
+	c.Floor("O13", "PROV deletes of the reservation pod", n, 1)
+}
+
+// runC17OrphanConsumersDeleted (O14): when a group has lost its reservation pod, EVERY running consumer of the group is
+// removed (single- and multi-fraction alike): in deleteNonReservedPods an iteration skips the delete only for a pod
+// that is not Running.
+func runC17OrphanConsumersDeleted(c *Ctx) {
+	f := c.Anchor("O14", pkgResv, "service", "deleteNonReservedPods")
+	if f == nil {
+		return
+	}
+	fx := c.Fx
+	n := 0
+	for _, h := range c.P.deepFind(f, isInvokeNamed("Delete"), 1) {
+		site := h.In
+		if len(h.Chain) > 0 {
+			site = h.Chain[0]
+		}
+		if loopHeaderOf(site.Block()) == nil {
+			continue
+		}
+		n++
+		notRunning := func(fs FactSet) bool {
+			_, ok := fs.find(func(ft Fact) bool {
+				t := ft.T
+				if t.Op != "bin" || len(t.Args) != 2 || !(t.Args[0].lastField() == "Phase" || t.Args[1].lastField() == "Phase") {
+					return false
+				}
+				return (t.Name == "==") != ft.Pol
+			})
+			return ok
+		}
+		ok, path := everyIterationPassesR(site, func(in ssa.Instruction) bool { return in == site }, func(from, to *ssa.BasicBlock) bool {
+			return !fx.edgeEstablishesAll(from, to, func(fs FactSet) bool { return fx.acceptWithExpansion(fs, notRunning) })
+		}, func(*ssa.Return) bool { return false })
+		c.Check(ok, "O14", "MPT", funcKey(f)+": every running consumer of a group without reservation is deleted", instrPos(site), "an iteration skips the delete only behind the phase test",
+			"a running consumer of a group that has no reservation pod can be skipped for another reason ("+pathStr(path)+"), e.g. because it carries the per-group label form of a multi-fraction pod: it keeps running on a GPU that nothing reserves, and no later sync repairs it")
+	}
+	c.Floor("O14", "MPT consumer deletes", n, 1)
 }
